@@ -69,7 +69,7 @@ def run_one(mid, checks, confirm):
                 os.makedirs(os.path.dirname(os.path.join(wt, rel)), exist_ok=True)
                 shutil.copy(os.path.join(d, "demo_test.go"), os.path.join(wt, rel))
                 cmd = cmdm.group(1).replace("GOPROXY=off ", "").strip().rstrip("`.")
-                cwd_demo = os.path.join(wt, "simapp") if rel.startswith("simapp/") and "cd simapp" in dp else wt
+                cwd_demo = os.path.join(wt, "simapp") if rel.startswith("simapp/") and re.search(r"cd \S*simapp", dp) else wt
                 rc1, o1 = sh(cmd, cwd=cwd_demo, env=goenv())
                 conf["demo_fails_with_patch"] = rc1 != 0
                 sh("git apply -R %s" % patch, cwd=wt)
